@@ -567,7 +567,7 @@ def amount_rule(ck, prog, ra_methods):
                   f"`{kind}` with exactly the copied count", loc=f.loc(b, T),
                   detail=None if ok else f"{len(match)} advance(s) carry the copied count; amounts seen: "
                                          f"{[_value_root(f, a) for _, _, a in incs] if from_local else [_value_root(f, a) for _, a in cons]} vs count {want}")
-    ck.floor("copies out of ReadAdapter buffers", n, 6)
+    ck.floor("copies out of ReadAdapter buffers", n, 4)
 
 
 def _reach_blocks_avoiding_edges(f, edges):
